@@ -1090,6 +1090,356 @@ def adapter_oracle(ctx, case, fwd, grads):
 
 
 # =====================================================================================================
+# =====================================================================================================
+# 6. double_krylov / lanczos: exact event-trace tie with Model/DoubleKrylov.v
+HEADER_DK = """From Coq Require Import ZArith List Bool PrimFloat.
+Import ListNotations.
+From EV Require Import Base.Arith Model.KrylovExp Model.DoubleKrylov.
+Open Scope float_scope."""
+DK_SRC = common.REPO / "emu_base/math/double_krylov.py"
+_REC = {}
+
+
+def _rec_class():
+    """torch.Tensor subclass whose __torch_function__ reports every torch call made on it (norm, tensordot, conj,
+    __setitem__, matrix_exp, block_diag, ...): the numerical kernels of double_krylov.py become recording stubs
+    that still compute the real values."""
+    if "cls" not in _REC:
+        import torch
+
+        class Rec(torch.Tensor):
+            LOG = None
+
+            @classmethod
+            def __torch_function__(cls, func, types, args=(), kwargs=None):
+                out = super().__torch_function__(func, types, args, kwargs or {})
+                log = cls.LOG
+                if log is not None:
+                    cls.LOG = None       # calls made while logging are not events
+                    try:
+                        log(getattr(func, "__name__", repr(func)), args, out)
+                    finally:
+                        cls.LOG = log
+                return out
+
+        _REC["cls"] = Rec
+    return _REC["cls"]
+
+
+def _dk_norm_lines():
+    """line number -> assigned name, for the statements of lanczos that call .norm()"""
+    fn = next(n for n in ast.parse(DK_SRC.read_text()).body if isinstance(n, ast.FunctionDef) and n.name == "lanczos")
+    out = {}
+    for node in ast.walk(fn):
+        if isinstance(node, ast.Assign) and ".norm()" in ast.unparse(node.value) and isinstance(node.targets[0], ast.Name):
+            for ln in range(node.lineno, node.end_lineno + 1):
+                out[ln] = node.targets[0].id
+    return out
+
+
+def gen_dk_case(rng, kind=None):
+    kind = kind or rng.choice(["random", "random", "random", "zero-grad", "zero-state", "eigen-state", "eigen-grad",
+                               "block", "block", "same", "basis", "tiny-H", "default-max"])
+    D = rng.choice([1, 2, 3, 4, 4, 6, 8, 8, 12, 16])
+    if kind == "block":
+        D = max(D, 4)
+    return {"kind": "dk", "dk_kind": kind, "D": D, "seed": rng.randrange(2 ** 31),
+            "dt": rng.choice([0.01, 0.1, 1.0, 1.0, 3.0, 10.0]),
+            "tol": rng.choice([1e-4, 1e-8, 1e-10, 1e-10, 1e-13]),
+            "max_dim": 100 if kind == "default-max" else rng.choice([0, 1, 2, 5, 12, 30, 30, 100, 100, 100, 100, 100]
+                                                                     if not kind.startswith("zero") else [0, 1, 2, 3, 5, 8, 12]),
+            "block": rng.randint(1, 3)}
+
+
+def dk_build(case):
+    import numpy as np
+
+    r = np.random.RandomState(case["seed"])
+    D, kind = case["D"], case["dk_kind"]
+    M = r.randn(D, D) + 1j * r.randn(D, D)
+    H = (M + M.conj().T) / 2
+    if kind == "block":  # invariant subspace of dimension b: happy breakdown at iteration b - 1
+        b = min(case["block"], D - 1)
+        H[:b, b:] = 0
+        H[b:, :b] = 0
+    if kind == "tiny-H":
+        H = H * 1e-9
+    w, U = np.linalg.eigh(H)
+
+    def rand():
+        v = r.randn(D) + 1j * r.randn(D)
+        return v / np.linalg.norm(v)
+
+    state, grad = rand(), rand() * r.choice([1.0, 0.3, 1e-6, 25.0])
+    if kind == "zero-grad":
+        grad = np.zeros(D, dtype=complex)
+    elif kind == "zero-state":
+        state = np.zeros(D, dtype=complex)
+    elif kind == "eigen-state":
+        state = U[:, r.randint(D)].astype(complex)
+    elif kind == "eigen-grad":
+        grad = U[:, r.randint(D)].astype(complex) * 0.7
+    elif kind == "same":
+        grad = state.copy()
+    elif kind == "basis":
+        state = np.eye(D, dtype=complex)[r.randint(D)]
+        grad = np.eye(D, dtype=complex)[r.randint(D)]
+    elif kind == "block":
+        b = min(case["block"], D - 1)
+        which = r.randint(3)
+        if which in (0, 2):
+            state[b:] = 0
+            state = state / np.linalg.norm(state)
+        if which in (1, 2):
+            grad[b:] = 0
+    return H, state, grad
+
+
+def dk_real_run(case):
+    """double_krylov of /repo on the case, every kernel call observed: returns the outcome, the tagged event trace
+    (encoded as Model.DoubleKrylov.ev_code), the oracle streams, the writes to T and the exponentiated matrix."""
+    import importlib
+    import sys
+    import torch
+
+    dk = importlib.import_module("emu_base.math.double_krylov")
+    Rec = _rec_class()
+    H, state, grad = dk_build(case)
+    Ht = torch.tensor(H, dtype=torch.complex128)
+    st = torch.tensor(state, dtype=torch.complex128).as_subclass(Rec)
+    gr = torch.tensor(grad, dtype=torch.complex128).as_subclass(Rec)
+    dt = case["dt"]
+    lines = _dk_norm_lines()
+    code_l, code_d = dk.lanczos.__code__, dk.double_krylov.__code__
+    ev, runs = [], {0: None, 1: None}
+    info = {"problems": [], "bigmat": None, "blocks": None}
+
+    def fresh():
+        return {"n2": {}, "n": {}, "expd": {}, "ov": [], "writes": [], "last_conj": None, "pending_vec": None}
+
+    def frame():
+        f = sys._getframe(2)
+        while f is not None and f.f_code is not code_l and f.f_code is not code_d:
+            f = f.f_back
+        return f
+
+    def run_of(fr):
+        v = fr.f_locals.get("v")
+        return 0 if v is st else (1 if v is gr else None)
+
+    def index_in(lst, x):
+        return next((i for i, y in enumerate(lst) if y is x), None)
+
+    def plain(t):
+        return t.detach().as_subclass(torch.Tensor).clone()
+
+    def log(name, args, out):
+        fr = frame()
+        if fr is None:
+            return
+        loc = fr.f_locals
+        if fr.f_code is code_l:
+            rn = run_of(fr)
+            if rn is None:
+                info["problems"].append("lanczos called on a vector that is neither state nor grad")
+                return
+            if runs[rn] is None:
+                runs[rn] = fresh()
+            R = runs[rn]
+            j, lv = loc.get("j"), loc.get("lanczos_vectors")
+            if name == "norm":
+                tgt = lines.get(fr.f_lineno)
+                if tgt == "lanczos_vectors" and args[0] is loc["v"]:
+                    ev.append((rn, (0, (0, 0))))
+                elif tgt == "n" and args[0] is loc.get("w"):
+                    ev.append((rn, (2, (j, 0))))
+                    R["n"][j] = plain(out)
+                elif tgt == "n2" and args[0] is loc.get("w"):
+                    ev.append((rn, (4, (j, 0))))
+                    R["n2"][j] = float(out)
+                else:
+                    info["problems"].append(f"unexpected norm call at line {fr.f_lineno}")
+            elif name == "conj" and lv is not None:
+                R["last_conj"] = (index_in(lv, args[0]), out)
+            elif name == "tensordot":
+                k = R["last_conj"][0] if R["last_conj"] is not None and args[0] is R["last_conj"][1] else None
+                if args[1] is not loc.get("w") or k is None:
+                    info["problems"].append("tensordot on unexpected operands")
+                ev.append((rn, (3, (k if k is not None else 999, j))))
+                R["ov"].append(((k, j), complex(out)))
+            elif name == "__setitem__" and args[0] is loc.get("T"):
+                rc = tuple(int(a) for a in args[1])
+                val = args[2]
+                R["writes"].append((rc, complex(val) if not isinstance(val, (int, float)) else complex(val)))
+            elif name in ("__truediv__", "div", "true_divide") and lv is not None and args[0] is loc.get("w"):
+                ev.append((rn, (5, (len(lv), 0))))      # w / n2: the vector about to be appended gets index len
+                R["pending_vec"] = out
+            elif name in ("linalg_matrix_exp", "matrix_exp"):
+                if lv is None or lv[-1] is not R["pending_vec"]:
+                    info["problems"].append("matrix_exp before the new vector was appended")
+                Tl = loc.get("T")   # T[:n, :n] is a view of T starting at T[0, 0]
+                if Tl is None or args[0].data_ptr() != Tl.data_ptr() or args[0].stride() != Tl.stride():
+                    info["problems"].append("matrix_exp of something that is not a view of T")
+                ev.append((rn, (6, (int(args[0].shape[0]), 0))))
+                R["expd"][j] = plain(out)
+        else:
+            if name == "block_diag":
+                ev.append((2, (7, (int(args[0].shape[0]), int(args[1].shape[0])))))
+                info["blocks"] = (plain(args[0]), plain(args[1]))
+            elif name == "norm":
+                if args[0] is st:
+                    ev.append((2, (8, (0, 0))))
+                    info["norm_s"] = float(out)
+                elif args[0] is gr:
+                    ev.append((2, (9, (0, 0))))
+                    info["norm_g"] = float(out)
+                else:
+                    info["problems"].append("norm of an unexpected tensor in double_krylov")
+            elif name == "__setitem__":
+                ev.append((2, (10, tuple(int(a) for a in args[1]))))
+                info["corner"] = complex(args[2])
+            elif name in ("matrix_exp", "linalg_matrix_exp"):
+                ev.append((2, (11, (int(args[0].shape[0]), 0))))
+                info["bigmat"] = plain(args[0])
+
+    n_ops = [0]
+
+    def op(x):
+        fr = sys._getframe(1)
+        saved, Rec.LOG = Rec.LOG, None
+        try:
+            if fr.f_code is code_l:
+                rn = run_of(fr)
+                lv = fr.f_locals.get("lanczos_vectors")
+                k = index_in(lv, x)
+                ev.append((rn, (1, (k if k is not None else 999, fr.f_locals.get("j")))))
+            else:
+                info["problems"].append("op called outside lanczos")
+            n_ops[0] += 1
+            return (-1j * dt) * (Ht @ x)
+        finally:
+            Rec.LOG = saved
+
+    class _TorchProxy:
+        def __getattr__(self, name):
+            if name == "zeros":
+                return lambda *a, **k: torch.zeros(*a, **k).as_subclass(Rec)
+            return getattr(torch, name)
+
+    out = {"exc": None}
+    saved_t, saved_m = dk.torch, dk.max_krylov_dim
+    try:
+        dk.torch, dk.max_krylov_dim = _TorchProxy(), case["max_dim"]
+        Rec.LOG = log
+        try:
+            Vs, dS, Vg = dk.double_krylov(op, st, gr, case["tol"])
+            Rec.LOG = None
+            out.update(ns=len(Vs), ng=len(Vg), shape=tuple(int(a) for a in dS.shape))
+        except RecursionError:
+            out["exc"] = "RecursionError"
+        except Exception as ex:  # noqa: BLE001  any other exception is a disagreement with the model
+            out["exc"] = type(ex).__name__
+    finally:
+        Rec.LOG = None
+        dk.torch, dk.max_krylov_dim = saved_t, saved_m
+    # oracle streams, recomputed from the logged kernel results with the source's own expressions
+    streams = {}
+    for rn in (0, 1):
+        R = runs[rn] or fresh()
+        nit = (max(R["n2"]) + 1) if R["n2"] else 0
+        n2s, e1s, e2s = [], [], []
+        for j in range(nit):
+            n2s.append(R["n2"].get(j, float("nan")))
+            e = R["expd"].get(j)
+            if e is None:
+                e1s.append(float("nan"))
+                e2s.append(float("nan"))
+            else:
+                e1s.append(float(abs(e[j + 1, 0])))
+                e2s.append(float(abs(e[j + 2, 0] * R["n"][j])))
+        streams[rn] = {"n2": n2s, "e1": e1s, "e2": e2s, "ov": R["ov"], "writes": R["writes"]}
+    out.update(events=ev, streams=streams, n_ops=n_ops[0], info=info)
+    return out
+
+
+def _cl(z):
+    fl = common.float_lit
+    return f"({fl(z.real)}, {fl(z.imag)})"
+
+
+def dk_control_expr(case, run):
+    fl = common.float_lit
+    lst = lambda xs: "[" + "; ".join(fl(x) for x in xs) + "]"  # noqa: E731
+    s, g = run["streams"][0], run["streams"][1]
+    return (f"let X := double_krylov_ctl float_arith (stream nan {lst(s['n2'])}) (stream nan {lst(s['e1'])}) "
+            f"(stream nan {lst(s['e2'])}) (stream nan {lst(g['n2'])}) (stream nan {lst(g['e1'])}) "
+            f"(stream nan {lst(g['e2'])}) {fl(case['tol'])} {case['max_dim']}%nat in (dk_outcome (snd X), dk_codes (fst X))")
+
+
+def dk_T_expr(case, run, rn, size):
+    """T[:size, :size] of run rn from the model's write log (overlaps as a table keyed by (k, j))"""
+    fl = common.float_lit
+    lst = lambda xs: "[" + "; ".join(fl(x) for x in xs) + "]"  # noqa: E731
+    s = run["streams"][rn]
+    tab = "[" + "; ".join(f"(({k}%nat, {j}%nat), {_cl(z)})" for (k, j), z in s["ov"]) + "]"
+    ov = (f"(fun k j => match find (fun p => Nat.eqb (fst (fst p)) k && Nat.eqb (snd (fst p)) j) {tab} with "
+          f"Some p => snd p | None => (nan, nan) end)")
+    T = (f"(lanczos_T float_arith CF.c0 CF.c1 CF.cofreal (stream nan {lst(s['n2'])}) (stream nan {lst(s['e1'])}) "
+         f"(stream nan {lst(s['e2'])}) {ov} {fl(case['tol'])} {case['max_dim']}%nat)")
+    return T, f"map (fun r => map (fun c => {T} r c) (seq 0 {size})) (seq 0 {size})"
+
+
+def dk_bigmat_expr(case, run):
+    fl = common.float_lit
+    ns, ng = run["ns"], run["ng"]
+    Ts, _ = dk_T_expr(case, run, 0, ns)
+    Tg, _ = dk_T_expr(case, run, 1, ng)
+    c = run["info"]["norm_s"] * run["info"]["norm_g"]
+    n = ns + ng
+    return (f"map (fun r => map (fun c => big_mat CF.c0 {ns} {ng} {Ts} {Tg} (CF.cofreal {fl(c)}) r c) (seq 0 {n})) "
+            f"(seq 0 {n})")
+
+
+def dk_compare(case, run, parsed):
+    """-> None or a description of the first disagreement (control outcome, event trace, operator count)"""
+    code, rest, mtrace = parsed          # Coq prints ((a, b), c) as (a, b, c)
+    if run["info"]["problems"]:
+        return f"instrumentation: {run['info']['problems'][:3]}"
+    if run["exc"] is None:
+        impl = (0, (run["ns"], run["ng"], run["shape"], run["n_ops"]))
+    elif run["exc"] == "RecursionError":
+        impl = (3, (0, 0, (0, 0), 0))
+    else:
+        return f"double_krylov raised {run['exc']}"
+    (ns, ng, shp, ops) = rest
+    model = (code, (ns, ng, tuple(shp), ops))
+    if model != impl:
+        return f"outcome impl={impl} model={model}"
+    mt = [(a, (b, tuple(c))) for (a, (b, c)) in mtrace]
+    it = [(a, (b, tuple(c))) for (a, (b, c)) in run["events"]]
+    if mt != it:
+        i = next((k for k, (x, y) in enumerate(zip(mt, it)) if x != y), min(len(mt), len(it)))
+        return (f"event traces differ at position {i} (lengths model {len(mt)} impl {len(it)}): model {mt[i:i + 3]} "
+                f"impl {it[i:i + 3]}")
+    n_model_ops = sum(1 for (_a, (b, _c)) in mt if b == 1)
+    if n_model_ops != run["n_ops"]:
+        return f"operator applications impl={run['n_ops']} model={n_model_ops}"
+    return None
+
+
+def dk_matrix_compare(parsed, tensor):
+    from vlib.coqparse import bits
+
+    rows = tensor.tolist()
+    if len(parsed) != len(rows):
+        return f"sizes differ: model {len(parsed)} impl {len(rows)}"
+    for r, (mr, ir) in enumerate(zip(parsed, rows)):
+        for c, (m, i) in enumerate(zip(mr, ir)):
+            if (bits(m[0] + 0.0), bits(m[1] + 0.0)) != (bits(i.real + 0.0), bits(i.imag + 0.0)):
+                return f"entry ({r}, {c}): model {m} impl {i!r}"
+    return None
+
+
 def corpus_cases():
     p = common.VERIF / "corpus" / "C30.json"
     return json.loads(p.read_text()) if p.exists() else []
@@ -1116,8 +1466,8 @@ def run(ctx):
     warnings.filterwarnings("ignore")
     rng = ctx.rng
     th = ctx.thorough()
-    rc, out = common.coq_make(["Model/PchipAD.vo", "Model/SvGrad.vo"])
-    ctx.obligation("build:Model/PchipAD.vo+Model/SvGrad.vo", rc == 0, out, kind="build")
+    rc, out = common.coq_make(["Model/PchipAD.vo", "Model/SvGrad.vo", "Model/DoubleKrylov.vo"])
+    ctx.obligation("build:Model/PchipAD.vo+Model/SvGrad.vo+Model/DoubleKrylov.vo", rc == 0, out, kind="build")
     model_ok = rc == 0
     common.standard_proof_stage(ctx, "C30", ["Properties/C30.vo"])
 
@@ -1283,6 +1633,59 @@ def run(ctx):
     ctx.obligation("correspondence:Model.SvGrad==DHD{Omega,Phi,Delta,U}Sparse.__matmul__ (exact, Gaussian-integer "
                    "batches, torch.exp rebound)", sv_ok, sv_detail, kind="correspondence")
 
+    # ---- double_krylov / lanczos: exact event trace, T and block matrix -------------------------------------
+    import random as _random
+    dk_rng = _random.Random(f"C30-double-krylov-{ctx.seed}")   # own stream: the inputs of the falsifiers below do not move
+    dk_cases = [gen_dk_case(dk_rng, k) for k in ("zero-grad", "zero-state", "block", "eigen-state", "eigen-grad", "default-max")]
+    dk_cases.append(dict(gen_dk_case(dk_rng, "zero-grad"), max_dim=100))   # F-27 at the default max_krylov_dim
+    dk_cases += [gen_dk_case(dk_rng) for _ in range(ctx.n(24, 600))]
+    dk_ok, dk_detail = model_ok, "" if model_ok else "model does not build"
+    dk_hist, dk_stats = {}, {"events": 0, "matrix_entries": 0, "matrix_cases": 0, "breakdown_exits": 0}
+    try:
+        ev = common.CoqEval("C30dk", HEADER_DK)
+        pend = []
+        for c in dk_cases:
+            r = dk_real_run(c)
+            outc = "returned" if r["exc"] is None else r["exc"]
+            dk_hist[f"{c['dk_kind']}/{outc}"] = dk_hist.get(f"{c['dk_kind']}/{outc}", 0) + 1
+            ctx.count_case({k: c[k] for k in ("kind", "dk_kind", "D", "seed", "dt", "tol", "max_dim")} |
+                           {"outcome": outc, "ops": r["n_ops"]}, nontrivial=r["n_ops"] >= 2)
+            if model_ok:
+                a = ev.add(dk_control_expr(c, r))
+                m = None
+                if r["exc"] is None and r["info"].get("bigmat") is not None and r["ns"] + r["ng"] <= ctx.n(12, 24):
+                    m = (ev.add(dk_T_expr(c, r, 0, r["ns"])[1]), ev.add(dk_T_expr(c, r, 1, r["ng"])[1]),
+                         ev.add(dk_bigmat_expr(c, r)))
+                pend.append((c, r, a, m))
+        if model_ok:
+            outs = ev.run(shard=ctx.n(12, 40), jobs=8)
+            for c, r, a, m in pend:
+                why = dk_compare(c, r, parse(outs[a]))
+                dk_stats["events"] += len(r["events"])
+                if r["exc"] is None:
+                    dk_stats["breakdown_exits"] += sum(1 for rn, ln in ((0, r["ns"]), (1, r["ng"]))
+                                                       if len(r["streams"][rn]["n2"]) == ln)
+                if why is None and m is not None:
+                    Ts, Tg = r["info"]["blocks"]
+                    why = (dk_matrix_compare(parse(outs[m[0]]), Ts) or dk_matrix_compare(parse(outs[m[1]]), Tg) or
+                           dk_matrix_compare(parse(outs[m[2]]), r["info"]["bigmat"]))
+                    if why is not None:
+                        why = "T / block matrix: " + why
+                    dk_stats["matrix_cases"] += 1
+                    dk_stats["matrix_entries"] += r["ns"] ** 2 + r["ng"] ** 2 + (r["ns"] + r["ng"]) ** 2
+                if why is not None and dk_ok:
+                    dk_ok = False
+                    dk_detail = f"{why}; case={c}"
+                    ctx.extra["first_double_krylov_disagreement"] = {"case": c, "why": why}
+    except (common.CoqEvalError, ValueError) as ex:
+        dk_ok, dk_detail = False, str(ex)[:2000]
+    ctx.extra["double_krylov_tie"] = {"cases": len(dk_cases), "outcomes": dict(sorted(dk_hist.items())), **dk_stats}
+    ctx.obligation("correspondence:Model.DoubleKrylov.double_krylov_ctl==emu_base.math.double_krylov.double_krylov (outcome, "
+                   "shapes, operator count and the tagged kernel-call event trace exact; returned Ts, Tg and the "
+                   "exponentiated block matrix bit-exact from the model's write log; kernels are recording stubs, "
+                   "oracle streams recomputed from the logged kernel results; max_krylov_dim rebound to 0..100)",
+                   dk_ok, dk_detail, kind="correspondence")
+
     # ---- finite differences through the backend ---------------------------------------------------------------
     sv_summ = []
     plan = []
@@ -1360,12 +1763,19 @@ def run(ctx):
                 "midpoints. sv-annihilation: H psi = 0 first steps, H = 0 steps, eigenvector initial states, basis "
                 "cotangents, all-idle runs. sv-sparse-U: n = 2..5, interaction matrices with exact zeros (chain, star, "
                 "two clusters, all-zero, single zero entry), random initial state, gradient w.r.t. U entry by entry, "
-                "diagonal and lower triangle exactly 0. one PRNG; distinct by input hash")
+                "diagonal and lower triangle exactly 0. dk: double_krylov on dense Hermitian H of dimension 1..16 with "
+                "op = -i dt H, dt 0.01..10, tolerance 1e-4..1e-13, max_krylov_dim 0..100, state / cotangent random, zero "
+                "(F-27), eigenvectors, equal, basis vectors, supported in an invariant block (happy breakdown after "
+                "1..3 iterations), H scaled by 1e-9 (own PRNG stream derived from the seed). one PRNG otherwise; distinct by input hash")
     ctx.trusted_base += ["hand-written models coq/Model/PchipAD.v (tape + VJP rules) and coq/Model/SvGrad.v, validated "
                          "against torch on every run", "Coq PrimFloat = IEEE binary64 = torch float64 elementwise kernels",
                          "torch's VJP formulas for add/sub/mul/div/where as transcribed in Model/PchipAD.v (validated by "
                          "the nan/inf-exact comparison with torch.autograd.grad)",
-                         "exactness of float64 + - * on small Gaussian integers (DHD tie)"]
+                         "exactness of float64 + - * on small Gaussian integers (DHD tie)",
+                         "hand-written model coq/Model/DoubleKrylov.v of lanczos / double_krylov, validated by the exact "
+                         "event-trace tie on every run; op, norm, tensordot, matrix_exp are oracles of that model (their "
+                         "values are logged from the real run through a torch.Tensor subclass with __torch_function__ "
+                         "and torch.zeros rebound to return it)"]
     ctx.assumptions += ["accuracy of the Frechet derivative / double Krylov decomposition is NOT proved: validated, at the "
                         "case's krylov tolerance (1e-10) and at 1e-13, against autograd through an independent dense "
                         "matrix_exp evolution, every entry of every block. Allowed deviation of a parameter gradient: "
@@ -1415,7 +1825,8 @@ def replay(ctx, path):
 META = {
     "category": "proof",
     "technique": "Coq proofs over the ring model of C06 (derivative operators) and over a Gallina reverse-mode AD "
-                 "evaluator of PCHIP1D (R + PrimFloat) + exact / bit-exact correspondences with torch + "
+                 "evaluator of PCHIP1D (R + PrimFloat) + control state machine of lanczos / double_krylov over oracle "
+                 "streams with an exact kernel-call event-trace tie + exact / bit-exact correspondences with torch + "
                  "dense-autograd-reference / finite-difference falsifier through the real emu-sv backend",
     "text": ("Proved for every N and every commutative *-ring: DHDOmega/Delta/U/PhiSparse applied to v equal "
              "H(theta + t e) v - H(theta) v divided by t (the Hamiltonian is affine in each parameter and in "
@@ -1423,11 +1834,21 @@ META = {
              "not read, the phi = 0 fast path agrees with the general one, and backward's tensordot equals "
              "tr(dH Vs^T dS conj(Vg)). Proved for every knot count: with the double where no division in the forward "
              "or reverse pass of PCHIP1D divides by zero (all values, strictly increasing knots); refuted for the "
-             "source as it is (R: zero divisor; binary64: NaN gradient for y = 0,1,1,0). Validated only: that the "
+             "source as it is (R: zero divisor; binary64: NaN gradient for y = 0,1,1,0). Proved for every oracle "
+             "stream, tolerance and max_krylov_dim (Model/DoubleKrylov.v, C30_lanczos_contract, "
+             "C30_lanczos_operator_applications, C30_lanczos_returns_iff, C30_double_krylov_contract, "
+             "C30_double_krylov_sequencing): lanczos exits at the first iteration meeting a test and raises "
+             "RecursionError otherwise, never indexes out of range, applies the operator to v_0, v_1, ... once each in "
+             "order (always the newest vector), orthogonalises against vectors max(0,j-1)..j only, returns iterations "
+             "(breakdown) or iterations+1 vectors; double_krylov returns iff both runs do, dS is len(Vs) x len(Vg) "
+             "with both in 1..max_krylov_dim+1, at most 2 max_krylov_dim operator applications, state run before "
+             "gradient run, a failed state run skips the gradient run. Proved over any non-commutative ring "
+             "(C30_block_triangular_powers): [[a,e],[0,b]]^n has top-right block sum_k a^k e b^(n-1-k). Validated only: that the "
              "models are the code (exact / bit-exact ties each run) and the accuracy of the Krylov Frechet derivative "
              "(dense autograd reference + central differences)."),
-    "note": ("Trusted: Coq kernel+VM, stdlib real axioms, the hand-written models (tied each run), PrimFloat == torch "
-             "float64. Findings: F-16 pchip-nan-gradient and intermediate-observable-gradient (fixed in /repo); "
+    "note": ("Trusted: Coq kernel+VM, stdlib real axioms, the hand-written models (tied each run; Model/DoubleKrylov.v by "
+             "the exact tagged event trace of double_krylov with recording kernels incl. zero cotangents / breakdowns / "
+             "non-convergence, and bit-exact Ts, Tg, block matrix), PrimFloat == torch float64. Findings: F-16 pchip-nan-gradient and intermediate-observable-gradient (fixed in /repo); "
              "energy-gradient (open known finding). Oracle tolerance for emu-sv gradients vs autograd through the "
              "dense reference, per case at its krylov tolerance tol (1e-10) and again at 1e-13: parameter gradients "
              "|AD - ref| <= 4 * steps * sqrt(2 * tol) * S + 1e-10 with S = max |gradient| over all of omega, delta, phi, "
